@@ -14,6 +14,9 @@ RULE = (
     "{2,'a',null} plus 24 nested documents; each evaluated through 14 entry points (env and compiled findall, finditer, match, "
     "query().values(), and the document given as JSON text, StringIO and BytesIO) and compared with the fold of the simple "
     "results (union = concatenation, intersection = left restricted to values produced by right, left to right). "
+    "TXT: documents that are not containers (strings whose content looks like JSON text, numbers, null, true) can only be "
+    "given as JSON text or files: 10 simple queries (6 with the fake root, 2 with $ in a filter) and their 1- and 2-operator "
+    "compounds x 12 such texts x 10 entry points, against the fold of the simple results on the same text. "
     "state = distinct (query, document); non-trivial = non-empty expected result"
 )
 ASSUMPTIONS = [
@@ -77,7 +80,32 @@ def bounds(tier, seed):
 
 def plan(tier, seed):
     n = len(queries(tier))
-    return [("Q", tier, lo, min(n, lo + 40)) for lo in range(0, n, 40)]
+    out = [("Q", tier, lo, min(n, lo + 40)) for lo in range(0, n, 40)]
+    m = len(txt_queries(tier))
+    out += [("TXT", tier, lo, min(m, lo + 200)) for lo in range(0, m, 200)]
+    return out
+
+
+# documents that are not arrays or objects can only be supplied as JSON text / files; a string document whose content
+# looks like JSON text is the case split of jsonpath/_data.py (a str argument is parsed)
+TXT_DOCS = ['"[2]"', '"{"', '"a"', '2', 'null', '"null"', '"2"', '"{\\"a\\": 2}"', '"[2, \\"a\\"]"', 'true', '""', '" [2]"']
+TXT_SIMPLE = ["$", "$[0]", "$.a", "$..*", "^[0]", "^[?@ == '[2]']", "^.*", "$[?@ == 2]", "^[?$ == '[2]']", "^[?$[0] == 2]"]
+
+
+def txt_queries(tier):
+    out = [(q,) for q in TXT_SIMPLE]
+    pool = TXT_SIMPLE if tier == "thorough" else TXT_SIMPLE[:6]
+    for a in pool:
+        for b in pool:
+            for op in "|&":
+                out.append((a, op, b))
+    for a in pool[:4]:
+        for b in pool[:4]:
+            for c in pool[:4]:
+                for o1 in "|&":
+                    for o2 in "|&":
+                        out.append((a, o1, b, o2, c))
+    return out
 
 
 _SIMPLE_C = {}
@@ -85,6 +113,10 @@ _SIMPLE_C = {}
 
 def run_shard(shard, acc):
     _, tier, lo, hi = shard
+    if shard[0] == "TXT":
+        for parts in txt_queries(tier)[lo:hi]:
+            _check_txt(parts, acc)
+        return
     ds = docs(tier)
     for parts in queries(tier)[lo:hi]:
         _check(parts, ds, acc)
@@ -113,6 +145,64 @@ def _entries(text, p, doc, with_forms):
             x for x in p.findall(doc)[1:]]
         yield "env.match(text)", lambda: (lambda m: [] if m is None else [m.obj])(jsonpath.match(text, t))[:1] + [
             x for x in p.findall(doc)[1:]]
+
+
+def _check_txt(parts, acc, record=True, only_doc=None):
+    import jsonpath
+
+    text = text_of(parts)
+    operands = parts[0::2]
+    ops = list(parts[1::2])
+    try:
+        p = jsonpath.compile(text)
+        simple = [jsonpath.compile(s) for s in operands]
+    except Exception as e:  # noqa: BLE001
+        acc.violation("TXT", "compile-error", {"query": text}, expected="compiles", observed="%s: %s" % (type(e).__name__, e))
+        return
+    for t in TXT_DOCS:
+        if only_doc is not None and t != only_doc:
+            continue
+        value = json.loads(t)
+        bad = None
+        try:
+            exp = fold([sp.findall(t) for sp in simple], ops)
+        except Exception as e:  # noqa: BLE001
+            exp = None
+            bad = ("simple.findall(text)", "%s: %s" % (type(e).__name__, e))
+        if bad is None and len(parts) == 1 and parts[0] == "$" and not jeq_list(exp, [value]):
+            bad = ("simple.findall(text)", exp)
+            exp = [value]
+        entries = [
+            ("findall(text)", lambda: p.findall(t)),
+            ("finditer(text)", lambda: [m.obj for m in p.finditer(t)]),
+            ("env.findall(text)", lambda: jsonpath.findall(text, t)),
+            ("env.finditer(text)", lambda: [m.obj for m in jsonpath.finditer(text, t)]),
+            ("findall(StringIO)", lambda: p.findall(io.StringIO(t))),
+            ("finditer(BytesIO)", lambda: [m.obj for m in p.finditer(io.BytesIO(t.encode()))]),
+            ("query(text).values", lambda: list(p.query(t).values())),
+            ("env.query(StringIO).values", lambda: list(jsonpath.query(text, io.StringIO(t)).values())),
+            ("match(text)", lambda: (lambda m: [] if m is None else [m.obj])(p.match(t)) + list(exp[1:])),
+            ("env.match(StringIO)", lambda: (lambda m: [] if m is None else [m.obj])(jsonpath.match(text, io.StringIO(t))) + list(exp[1:])),
+        ]
+        if bad is None:
+            for name, fn in entries:
+                try:
+                    got = fn()
+                    if not jeq_list(got, exp):
+                        bad = (name, got)
+                        break
+                except Exception as e:  # noqa: BLE001
+                    bad = (name, "%s: %s" % (type(e).__name__, e))
+                    break
+        if record:
+            acc.case("TXT", (text, t), outcome=None if exp is None else tuple(ckey(v) for v in exp), nontrivial=bool(exp), trans=10)
+            acc.count("txt.%d.%s" % (len(ops), "some" if exp else "none"))
+            if acc.evals % 500 == 1:
+                acc.sample("TXT", {"query": text, "doc_text": t, "expected": exp})
+        if bad:
+            acc.violation("TXT", "disagrees." + bad[0], {"query": text, "parts": list(parts), "doc_text": t}, expected=exp,
+                          observed=bad[1])
+            return
 
 
 def _check(parts, ds, acc, record=True, only_doc=None):
@@ -166,10 +256,13 @@ def _check(parts, ds, acc, record=True, only_doc=None):
             return
 
 
-REQUIRE = {"ops.0.some": 10, "ops.1.some": 100, "ops.2.some": 100, "ops.3.some": 100, "ops.1.none": 10}
+REQUIRE = {"txt.0.some": 10, "txt.1.some": 50, "txt.2.some": 50, "ops.0.some": 10, "ops.1.some": 100, "ops.2.some": 100, "ops.3.some": 100, "ops.1.none": 10}
 
 
 def check_case(sub, case, acc):
+    if sub == "TXT":
+        _check_txt(tuple(case["parts"]), acc, record=False, only_doc=case["doc_text"])
+        return
     _check(tuple(case["parts"]), docs(), acc, record=False, only_doc=case["doc"])
 
 
@@ -182,7 +275,10 @@ def shrink(sub, case):
                 new = parts[2:]
             else:
                 new = parts[:2 * i - 1] + parts[2 * i + 1:]
-            yield {"query": text_of(new), "parts": list(new), "doc": case["doc"]}
+            if sub == "TXT":
+                yield {"query": text_of(new), "parts": list(new), "doc_text": case["doc_text"]}
+            else:
+                yield {"query": text_of(new), "parts": list(new), "doc": case["doc"]}
 
 
 def signature(sub, case, v):
